@@ -4,7 +4,7 @@ set -e
 cd "$(dirname "$0")"
 export GOFLAGS=-mod=mod GOPROXY=off GOSUMDB=off GOTOOLCHAIN=local
 mkdir -p .work evidence replays
-(cd extract && go run . --repo /repo --out ../lean/SamlVerif/Generated/Facts.lean)
+(cd extract && go run . --repo /repo --out ../lean/SamlVerif/Generated/Facts.lean --trans ../lean/SamlVerif/Generated/Trans.lean)
 (cd lean && lake build 2>&1 | tail -5)
 [ -f harness/go.sum ] || cp /repo/go.sum harness/go.sum
 (cd harness && go build -tags verif -o ../.work/harness . )
